@@ -28,10 +28,12 @@ structure Cfg where
   wakeOnlyIfHead : Bool
   deriving DecidableEq, Repr
 
-/-- gateway `Lock`: `if in.GetTTL() <= ttlThresh { in.TTL = ttlFloor }` (milliseconds) -/
+/-- gateway `Lock`: `if in.GetTTL() <= ttlThresh { in.TTL = ttlFloor }` (milliseconds), optionally
+    followed by `if in.GetTTL() > ttlCap { in.TTL = ttlCap }` -/
 structure GwCfg where
   ttlThresh : Int
   ttlFloor : Int
+  ttlCap : Option Int := none
   deriving DecidableEq, Repr
 
 structure Q where
@@ -131,6 +133,35 @@ def unlockOk (s : St) (id : Nat) : Bool := decide (id ∈ s.q.callers)
 def holders (s : St) : List Nat := s.acquired.filter (· ∈ s.q.callers)
 
 /-- gateway `Lock`: the TTL handed to the locker, in milliseconds -/
-def effTTL (gw : GwCfg) (ttl : Int) : Int := if ttl ≤ gw.ttlThresh then gw.ttlFloor else ttl
+def effTTL (gw : GwCfg) (ttl : Int) : Int :=
+  let f := if ttl ≤ gw.ttlThresh then gw.ttlFloor else ttl
+  match gw.ttlCap with
+  | some c => if f > c then c else f
+  | none => f
+
+/-- Go's `int64` arithmetic: the value an `int64` holds after a computation whose mathematical
+    result is `x` (two's-complement wrap-around) -/
+def wrap64 (x : Int) : Int := (x + 9223372036854775808) % 18446744073709551616 - 9223372036854775808
+
+theorem wrap64_id (x : Int) (h0 : -9223372036854775808 ≤ x) (h1 : x < 9223372036854775808) : wrap64 x = x := by
+  unfold wrap64
+  rw [Int.emod_eq_of_lt (by omega) (by omega)]
+  omega
+
+theorem wrap64_over (x : Int) (h0 : 9223372036854775808 ≤ x) (h1 : x < 27670116110564327424) :
+    wrap64 x = x - 18446744073709551616 := by
+  unfold wrap64
+  have : (x + 9223372036854775808) % 18446744073709551616
+      = (x + 9223372036854775808 - 18446744073709551616) % 18446744073709551616 := by
+    rw [Int.sub_emod_right]
+  rw [this, Int.emod_eq_of_lt (by omega) (by omega)]
+  omega
+
+/-- gateway `Lock`: `time.Duration(in.GetTTL()) * time.Millisecond` — the duration (nanoseconds) the
+    locker's watchdog timer is armed with.  `time.NewTimer(d)` with `d ≤ 0` fires at once. -/
+def effDurNs (gw : GwCfg) (ttl : Int) : Int := wrap64 (effTTL gw ttl * 1000000)
+
+/-- the largest TTL (ms) whose duration fits an `int64` of nanoseconds -/
+def maxTTLms : Int := 9223372036854
 
 end Hv.Lock
